@@ -253,7 +253,7 @@ def job_api(j):
     # documented reading of THAT item's registers (ids may name a sensor and a setting at different addresses)
     if cfg.get('singles'):
         sigs = {}
-        for order in ('sensors-first', 'settings-first', 'sensors-first+neighbour', 'settings-first+neighbour'):
+        for order in ('sensors-first', 'settings-first', 'sensors-first+neighbour', 'settings-first+neighbour', 'sensors-first+twice-at-once'):
             world.reset()
             r = make_rig(cfg, transport, fill=api_fill(2, seed))
             inv = r.inv
@@ -283,17 +283,30 @@ def job_api(j):
                 nb = refdec.size_of(s)
                 if fam == 'ES' and (s.offset < 1000 or kind == 'sensor'):
                     continue     # AA55 blob items are not read singly
-                st = r.call(inv.read_sensor if kind == 'sensor' else inv.read_setting, s.id_)
-                if st[0] != 'ok':
-                    continue
-                own = r.dev.rf.getbytes(s.offset, (nb + 1) // 2)[:nb]
-                ref = refdec.decode(s, own)
-                got = ('ValueError', '') if (st[1] is None and ref is refdec.NOVALUE) else ('value', st[1])
-                n += 1
-                df = compare(s, got, ref)
-                if df:
-                    bad(f'api:documented-reading/{fam}/read_{kind}/{tname(s)}', s.id_,
-                        f'read_{kind}({s.id_!r}) @{s.offset} = {own.hex()}: {df} ({order})', 2)
+                fn = inv.read_sensor if kind == 'sensor' else inv.read_setting
+                if order.endswith('+twice-at-once'):
+                    # two consumers ask for the same item at the same time: each gets the documented reading
+                    import asyncio
+                    if tname(s) in ('EcoModeV1', 'EcoModeV2', 'Schedule', 'PeakShavingMode'):
+                        continue      # (group values are one shared object: C20's known finding, not two readings)
+
+                    async def twice(fn=fn, sid=s.id_):
+                        return await asyncio.gather(fn(sid), fn(sid), return_exceptions=True)
+                    both = r.call(twice)
+                    sts = [('exc',) if isinstance(x, BaseException) else ('ok', x) for x in both[1]] if both[0] == 'ok' else []
+                else:
+                    sts = [r.call(fn, s.id_)]
+                for ci, st in enumerate(sts):
+                    if st[0] != 'ok':
+                        continue
+                    own = r.dev.rf.getbytes(s.offset, (nb + 1) // 2)[:nb]
+                    ref = refdec.decode(s, own)
+                    got = ('ValueError', '') if (st[1] is None and ref is refdec.NOVALUE) else ('value', st[1])
+                    n += 1
+                    df = compare(s, got, ref)
+                    if df:
+                        bad(f'api:documented-reading/{fam}/read_{kind}/{tname(s)}' + ('/two-consumers-at-once' if len(sts) > 1 else ''), s.id_,
+                            f'read_{kind}({s.id_!r}) @{s.offset} = {own.hex()}: {df} ({order}' + (f', consumer {ci + 1} of 2)' if len(sts) > 1 else ')'), 2)
     res = []
     for key, lst in vio.items():
         lst[0]['n'] = len(lst)
